@@ -656,6 +656,17 @@ func (e *SpecEnv) call(n SCall) (Term, error) {
 			return Term{S: fmt.Sprintf("(<= (s_arr %s) %s)", t.S, vc.getCompIn(e.heap, "top", "Int")), Sort: "Bool"}, nil
 		}
 		return Term{S: fmt.Sprintf("(and (not (= %s 0)) (<= %s %s))", t.S, t.S, vc.getCompIn(e.heap, "top", "Int")), Sort: "Bool"}, nil
+	case "deref": // deref(p): the value stored at pointer p (non-struct pointee)
+		t, err := e.eval(n.Args[0])
+		if err != nil {
+			return Term{}, err
+		}
+		pt, ok := t.T.Underlying().(*types.Pointer)
+		if !ok || isStruct(pt.Elem()) {
+			return Term{}, fmt.Errorf("deref needs a pointer to a non-struct value")
+		}
+		a := vc.pointeeAddr(t.S, t.T)
+		return Term{S: vc.loadAddrIn(e.heap, a), Sort: vc.sortOf(pt.Elem()), T: pt.Elem()}, nil
 	case "arrOf": // arrOf(s): identity of the backing array of slice s (0 for nil)
 		t, err := e.eval(n.Args[0])
 		if err != nil {
